@@ -64,21 +64,30 @@ def main():
     ap.add_argument("--tests", action="store_true")
     ap.add_argument("-j", type=int, default=8)
     ap.add_argument("-v", action="store_true")
+    ap.add_argument("--prop", default="", help="only mutants that expect a report for this property")
+    ap.add_argument("--json", default="", help="write a machine-readable summary here")
     args = ap.parse_args()
     muts = []
     for fn in sorted(os.listdir(os.path.join(VERIF, "selftest"))):
         if fn.endswith(".json"):
             muts += json.load(open(os.path.join(VERIF, "selftest", fn)))["mutants"]
     muts = [m for m in muts if args.k in m["id"]]
+    if args.prop:
+        muts = [m for m in muts if any(e["prop"] == args.prop for e in m.get("expect", []))]
     bad = 0
+    summary = []
     with concurrent.futures.ThreadPoolExecutor(args.j) as ex:
         for mid, status, info, viol in ex.map(lambda m: run_one(m, args), muts):
             print("%-12s %-44s %s" % (status, mid, info))
+            summary.append({"mutant": mid, "status": status, "reports": ["%s:%s:%s" % tuple(v) for v in viol if not args.prop or v[0] == args.prop][:6]})
             if args.v or status not in ("OK",):
                 for v in viol[:12]:
                     print("      ", v)
             if status not in ("OK", "OK+EXTRA"):
                 bad += 1
     print("%d mutants, %d not as expected" % (len(muts), bad))
+    if args.json:
+        json.dump({"mutants": len(muts), "alive": sum(1 for x in summary if x["status"] in ("OK", "OK+EXTRA")), "not_as_expected": bad, "results": summary,
+                   "note": "liveness self-test: one-instance mutations of the current tree on scratch copies; informational, never part of the exit code"}, open(args.json, "w"), indent=1)
 
 main()
